@@ -165,6 +165,10 @@ func c11Alphabet() []string {
 		if sc.label == "rootagain" {
 			ms = []string{"inc 1", "rec 3", "hv 1"}
 		}
+		if sc.label == "root" || sc.label == "sub" {
+			// a histogram asked for with nil buckets: the test scope's configured defaults (value bounds, unsorted)
+			ms = append(ms, "hn 5")
+		}
 		for _, m := range ms {
 			a = append(a, sc.label+" "+m)
 		}
@@ -181,7 +185,12 @@ func c11Exec(alphabet []string) func(hist []int) (string, string, string, int) {
 			if c11RootTagged {
 				rootTags = map[string]string{"r": "0"}
 			}
-			root := tally.VerifNewTestScopeOpts(tally.ScopeOptions{Prefix: "p", Tags: rootTags}, 4)
+			// default buckets: configured value bounds (unsorted) on the tagged root, the built-in duration defaults on the untagged one
+			var defaults tally.Buckets
+			if c11RootTagged {
+				defaults = tally.ValueBuckets{7, 3}
+			}
+			root := tally.VerifNewTestScopeOpts(tally.ScopeOptions{Prefix: "p", Tags: rootTags, DefaultBuckets: defaults}, 4)
 			m := newC11Model()
 			live := map[string]tally.Scope{}
 			inert := map[string]bool{}
@@ -282,6 +291,8 @@ func c11Exec(alphabet []string) func(hist []int) (string, string, string, int) {
 						metric = "hv"
 					case "hd":
 						metric = "hd"
+					case "hn":
+						metric = "hn"
 					}
 					full := sc.prefix + "." + metric
 					k := tally.KeyForPrefixedStringMap(full, sc.tags)
@@ -305,6 +316,30 @@ func c11Exec(alphabet []string) func(hist []int) (string, string, string, int) {
 							}
 						}
 						m.hvals[k][vu[refValueBucket(vu, arg)]]++
+					case "hn":
+						// both kinds are recorded: the one that does not match the kind of the defaults is ignored
+						hn := s.Histogram(metric, nil)
+						hn.RecordValue(arg)
+						hn.RecordDuration(time.Duration(arg) * time.Millisecond)
+						if c11RootTagged {
+							nu := refValueUppers([]float64{7, 3})
+							if m.hvals[k] == nil {
+								m.hvals[k] = map[float64]int64{}
+								for _, u := range nu {
+									m.hvals[k][u] = 0
+								}
+							}
+							m.hvals[k][nu[refValueBucket(nu, arg)]]++
+						} else {
+							nd := refDurationUppers(c11BuiltinDefaults)
+							if m.hdurs[k] == nil {
+								m.hdurs[k] = map[time.Duration]int64{}
+								for _, u := range nd {
+									m.hdurs[k][u] = 0
+								}
+							}
+							m.hdurs[k][nd[refDurationBucket(nd, time.Duration(arg)*time.Millisecond)]]++
+						}
 					case "hd":
 						s.Histogram(metric, tally.DurationBuckets(append([]time.Duration{}, c11DSpecs[si]...))).RecordDuration(time.Duration(arg))
 						if m.hdurs[k] == nil {
@@ -488,3 +523,7 @@ func c11Scenarios(tier string) []*Scenario {
 	sc3.Check = func(x *Run, o *rt.Outcome) (string, string, string) { return "", "", "ok" }
 	return []*Scenario{sc, sc2, sc3}
 }
+
+// c11BuiltinDefaults: the library's default histogram buckets (documented in scope.go).
+var c11BuiltinDefaults = []time.Duration{0, 10 * time.Millisecond, 25 * time.Millisecond, 50 * time.Millisecond, 75 * time.Millisecond, 100 * time.Millisecond, 200 * time.Millisecond,
+	300 * time.Millisecond, 400 * time.Millisecond, 500 * time.Millisecond, 600 * time.Millisecond, 800 * time.Millisecond, time.Second, 2 * time.Second, 5 * time.Second}
